@@ -2,7 +2,10 @@
 import importlib
 
 IDS = [f"C{n:02d}" for n in range(1, 20)]
+BEYOND = ["X01", "X02", "X03"]          # conformance of specification parts that no listed property claims (./check X01 ...)
 
 
 def load(pid: str):
+    if pid in BEYOND:
+        return getattr(importlib.import_module("harness.props.beyond"), pid)
     return importlib.import_module(f"harness.props.{pid.lower()}").PROP
